@@ -405,7 +405,8 @@ func mirrorEngine(c *Ctx) {
 		}
 		// permanent corpus of source lists: something that is read (and must not be written) ahead of the holder
 		fixed := [][]string{{"lacking", "good"}, {"good", "lacking"}, {"lacking", "lacking"}, {"missingdir", "good"}, {"lacking", "httpgood"},
-			{"dirware", "good"}, {"corrupt", "good"}, {"mislabelled", "lacking", "good"}, {"httpgood"}, {"missingdir", "lacking", "httpgood", "good"}}
+			{"dirware", "good"}, {"corrupt", "good"}, {"mislabelled", "lacking", "good"}, {"httpgood"}, {"missingdir", "lacking", "httpgood", "good"},
+			{"missingdir"}, {"lacking", "missingdir", "lacking"}}
 		if k < len(fixed) {
 			cs = fixed[k]
 		}
@@ -419,8 +420,14 @@ func mirrorEngine(c *Ctx) {
 			tk = "ca%"
 		case k == 1 || k == 4:
 			tk = "ca#"
-		case k == 2:
+		case k == 2: // no source has the ware: plain targets, so that the writer really is opened
+			tk = "file"
+		case k == 9:
 			tk = "file+"
+		case k == 10:
+			tk = "ca"
+		case k == 11:
+			tk = "file"
 		case k == 7:
 			tk = "ca+"
 		case c.Chance(1, 4):
